@@ -101,5 +101,13 @@ Record hello := mkHello { h_eph : N; h_signer : N; h_signed_challenge : N; h_net
 Definition accepts (me : party) (h : hello) : bool :=
   N.eqb (h_signed_challenge h) (dh (pa_eph me) (h_eph h)) &&     (* the peer signed the challenge of THIS session *)
   N.eqb (h_meta_signer h) (h_signer h) &&                         (* the meta is signed by the same identity *)
+  N.eqb (h_net h) (pa_net me) && N.eqb (h_chain h) (pa_chain me) &&
+  negb (N.eqb (h_signer h) (pa_id me)).                           (* ... which is not this node's own (a reflected proof) *)
+(* the handshake before the repair recorded in KNOWN_FINDINGS.txt (no own-identity test) *)
+Definition accepts_old (me : party) (h : hello) : bool :=
+  N.eqb (h_signed_challenge h) (dh (pa_eph me) (h_eph h)) && N.eqb (h_meta_signer h) (h_signer h) &&
   N.eqb (h_net h) (pa_net me) && N.eqb (h_chain h) (pa_chain me).
+(* what a keyless endpoint with ephemeral key e can send back to [me]: me's own proof and meta of this very session *)
+Definition reflected (me : party) (e : N) : hello :=
+  mkHello e (pa_id me) (dh (pa_eph me) e) (pa_net me) (pa_chain me) (pa_id me).
 End Handshake.
